@@ -5,7 +5,8 @@ from oracle_util import *  # noqa
 from protocol import from_real, pm
 
 ID = "C17"
-LEAN_MODULE = "SCoda.Props.C17"
+LEAN_MODULE = ["SCoda.Props.C17", "SCoda.Props.Notes"]
+LEVEL = "proof"
 CLAUSES = [
     ("reflexive (every list, every flag set) and symmetric", ["SCoda.C17.refl", "SCoda.C17.symm"]),
     ("insertion order and representation do not matter: permutations with distinct sort keys are interchangeable; only the sorted list is looked at",
@@ -16,7 +17,9 @@ CLAUSES = [
      "channel = uniform relabelling equal with the flag and unequal without",
      ["SCoda.C17.flag_velocity", "SCoda.C17.flag_time_signature", "SCoda.C17.flag_key_signature",
       "SCoda.C17.flag_channel_relabel", "SCoda.C17.flag_channel_strict"]),
-    ("general sensitivity: equals = true implies equal musical content (notes and signatures) for arbitrary well-formed sequences", None),
+    ("general sensitivity: equals = true implies the same notes (channel, pitch, onset, end, velocity) and the same time/key signatures at the same ticks "
+     "for arbitrary well-formed sequences — so any such difference makes equals fail; the pairings are the notes",
+     ["SCoda.Notes.equals_sound", "SCoda.Notes.pairings_notes"]),
 ]
 RULE = ("base well-formed sequences (<=6 notes, signatures) paired with: themselves, shuffled insertion orders, the relative "
         "re-representation, and every single-attribute perturbation (pitch, onset, duration, velocity, channel relabel, "
